@@ -47,7 +47,186 @@ fn base_scenario(kind: &str, seed: u64, run: u64) -> (Scenario, gen::Knobs) {
     )
 }
 
+/// Several rules used alternately on ONE thread: what one rule's evaluation leaves behind on the
+/// thread (or in the process) must not influence another rule's, or its own later, verdicts.
+/// Operations are Op::Match(rule_index * 10_000 + doc_index). One scenario in eight is a
+/// "gap" history: a match, then a boundary-length run of matches of another rule (254..257,
+/// 65_534..65_537 evaluations, the places where small counters wrap), then a match again.
+fn generate_multirule(seed: u64, run: u64, thorough: bool) -> Scenario {
+    let mut kr = Rng::stream(seed, run, "KNOBS");
+    let mut knobs = gen::Knobs::draw(&mut kr);
+    let mut hr = Rng::stream(seed, run, "HASH");
+    let mut sr = Rng::stream(seed, run, "SWITCHES");
+    let mut or = Rng::stream(seed, run, "OPS");
+    if or.chance(1, 15) {
+        // every rule on the thread has a large counted needle list (of different lengths)
+        knobs.feat |= gen::F_T6;
+    }
+    let nrules = 2 + or.below(2);
+    let mut texts = vec![];
+    let mut docs = vec![];
+    let mut doc_owner = vec![];
+    for r in 0..nrules {
+        let mut rr = Rng::stream(seed, run, &format!("RULE{}", r));
+        let mut dr = Rng::stream(seed, run, &format!("DOCS{}", r));
+        let y = gen::gen_rule(&mut rr, &knobs);
+        for d in gen::docs_for(&mut dr, &y, &knobs, 6) {
+            docs.push(d);
+            doc_owner.push(r);
+        }
+        texts.push(gen::rule_text(&y));
+    }
+    let pick = |or: &mut Rng, r: usize| -> Op {
+        // mostly the rule's own documents, sometimes another rule's
+        let cands: Vec<usize> = (0..docs.len()).filter(|i| doc_owner[*i] == r).collect();
+        let i = if or.chance(4, 5) && !cands.is_empty() { *or.pick(&cands) } else { or.below(docs.len()) };
+        Op::Match(r * 10_000 + i)
+    };
+    let mut ops = vec![];
+    if or.chance(1, 8) {
+        let gap = *or.pick(&[127usize, 128, 254, 255, 256, 257, 511, 512, 1023, 1024, 65_534, 65_535, 65_536, 65_537]);
+        let gap = if gap > 2000 && !thorough && !or.chance(1, 6) { 255 + or.below(3) } else { gap };
+        for _ in 0..1 + or.below(3) {
+            ops.push(pick(&mut or, 0));
+        }
+        let filler = pick(&mut or, 1);
+        for _ in 0..gap {
+            ops.push(filler.clone());
+        }
+        // slide over the neighbouring lengths as well
+        for _ in 0..4 {
+            ops.push(pick(&mut or, 0));
+            ops.push(filler.clone());
+        }
+    } else {
+        let n = if or.chance(1, 12) { 300 + or.below(600) } else { 12 + or.below(40) };
+        for _ in 0..n {
+            let r = or.below(nrules);
+            ops.push(pick(&mut or, r));
+        }
+    }
+    Scenario {
+        property: "C12".into(),
+        kind: "multirule".into(),
+        seed,
+        run,
+        origin: "generated".into(),
+        rule_text: texts[0].clone(),
+        strings: texts[1..].to_vec(),
+        docs,
+        switch_sets: vec![if sr.chance(1, 3) { 0 } else { *sr.pick(&[15u8, 14, 2, 10, 8, 6]) }],
+        hash_seeds: vec![hr.next_u64() >> 16],
+        ops,
+        ..Default::default()
+    }
+}
+
+fn exec_multirule(sc: &Scenario) -> Outcome {
+    let mut stats = Stats::default();
+    let mut d = Digest::new();
+    let mut vs = vec![];
+    let sw = sc.switch_sets.first().copied().unwrap_or(0);
+    let h = sc.hash_seeds.first().copied().unwrap_or(0);
+    let mut texts = vec![sc.rule_text.clone()];
+    texts.extend(sc.strings.iter().cloned());
+    let build = |text: &str| -> Option<Rule> {
+        tau_engine::verif::set_hash_seed(h);
+        tau_engine::verif::set_collapse_missing(false);
+        match load(text) {
+            Loaded::Ok(r) => {
+                if sw != 0 {
+                    optimise(&r, sw, h).ok()
+                } else {
+                    Some(*r)
+                }
+            }
+            _ => None,
+        }
+    };
+    // fresh verdict per (rule, document) pair that the history uses: new thread, new rule
+    let mut fresh: std::collections::BTreeMap<usize, Option<bool>> = Default::default();
+    for op in &sc.ops {
+        if let Op::Match(code) = op {
+            if fresh.contains_key(code) {
+                continue;
+            }
+            let (r, i) = (code / 10_000, code % 10_000);
+            let v = if r < texts.len() && i < sc.docs.len() {
+                std::thread::scope(|s| {
+                    std::thread::Builder::new()
+                        .stack_size(8 << 20)
+                        .spawn_scoped(s, || build(&texts[r]).and_then(|rule| verdict(&rule, &sc.docs[i], &sc.render).ok()))
+                        .ok()
+                        .and_then(|h| h.join().ok())
+                        .flatten()
+                })
+            } else {
+                None
+            };
+            fresh.insert(*code, v);
+        }
+    }
+    stats.add("fresh_thread_verdicts", fresh.len() as u64);
+    // the long-lived thread (this one): all rules loaded once, history executed in order
+    let rules: Vec<Option<Rule>> = texts.iter().map(|t| build(t)).collect();
+    if rules.iter().all(|r| r.is_none()) {
+        stats.inc("load_rejected");
+        return Outcome::clean(&d, stats);
+    }
+    stats.inc("rules_loaded");
+    let mut compared = 0u64;
+    for (k, op) in sc.ops.iter().enumerate() {
+        if let Op::Match(code) = op {
+            let (r, i) = (code / 10_000, code % 10_000);
+            let rule = match rules.get(r).and_then(|x| x.as_ref()) {
+                Some(x) => x,
+                None => continue,
+            };
+            if i >= sc.docs.len() {
+                continue;
+            }
+            let got = verdict(rule, &sc.docs[i], &sc.render).ok();
+            d.u64(got.map(|b| b as u64).unwrap_or(2));
+            if let (Some(g), Some(Some(f))) = (got, fresh.get(code)) {
+                compared += 1;
+                if g != *f {
+                    push_violation(
+                        &mut vs,
+                        Violation::new(
+                            "verdict_depends_on_history",
+                            format!("multirule:{}", sw_name(sw)),
+                            format!(
+                                "op #{} of {}: rule #{} on doc #{} {} gives {} on the long-lived thread but {} on a fresh thread with a fresh rule ({} rules share the thread)",
+                                k, sc.ops.len(), r, i, sc.docs[i].show(), g, f, texts.len()
+                            ),
+                        ),
+                    );
+                }
+            }
+        }
+    }
+    stats.add("history_matches_compared", compared);
+    if sc.ops.len() > 200 {
+        stats.inc("long_histories");
+    }
+    if compared >= 2 {
+        let mut od = Digest::new();
+        for t in &texts {
+            let yaml: serde_yaml::Value = serde_yaml::from_str(t).unwrap_or(serde_yaml::Value::Null);
+            od.u64(gen::rule_shape(&yaml));
+        }
+        stats.seen("nontrivial", od.u64(sc.ops.len() as u64).finish());
+    }
+    if stats.samples.is_empty() {
+        stats.samples.push(serde_json::json!({"kind": "multirule", "rules": texts, "ops": sc.ops.len(), "switches": sw_name(sw)}));
+    }
+    Outcome::of(&d, stats, vs)
+}
+
 pub fn generate(kind: &str, seed: u64, run: u64, thorough: bool) -> Scenario {
+    if kind == "multirule" {
+        return generate_multirule(seed, run, thorough);
+    }
     if kind == "process" {
         // run 0: hash scenarios, run 1: history scenarios; `run` of the scenario = how many
         return Scenario {
@@ -750,6 +929,7 @@ fn exec_process(sc: &Scenario) -> Outcome {
 pub fn execute(sc: &Scenario) -> Outcome {
     match sc.kind.as_str() {
         "process" => exec_process(sc),
+        "multirule" => exec_multirule(sc),
         "hash" => exec_hash(sc),
         "history" => exec_history(sc),
         "threads" => exec_threads(sc),
